@@ -1,6 +1,77 @@
-//! engine `adapters` (stub — to be written)
+//! engine `adapters` (C11) — under construction; `bvh adapters probe` confirms D6/D7/D8
 use crate::util::*;
+use std::io::{Read, Write};
+use std::sync::atomic::{AtomicU64, Ordering};
+use std::sync::Arc;
+
+struct ZeroAfter { sink: Vec<u8>, calls: u64, zero_from: u64, zero_count: u64, log: Vec<String> }
+impl Write for ZeroAfter {
+    fn write(&mut self, b: &[u8]) -> std::io::Result<usize> {
+        let k = self.calls; self.calls += 1;
+        if k >= self.zero_from && k < self.zero_from + self.zero_count { self.log.push(format!("w{}:0", b.len())); return Ok(0); }
+        if self.calls > 100000 { panic!("livelock"); }
+        self.sink.extend_from_slice(b); self.log.push(format!("w{}:{}", b.len(), b.len())); Ok(b.len())
+    }
+    fn flush(&mut self) -> std::io::Result<()> { Ok(()) }
+}
+
+pub fn probe() {
+    // ---- D8: zero-length writes in CompressorWriter
+    for nz in 1..=4u64 {
+        let data: Vec<u8> = (0..200000u32).map(|i| (i.wrapping_mul(2654435761) >> 13) as u8).collect();
+        let inner = ZeroAfter { sink: vec![], calls: 0, zero_from: 0, zero_count: 0, log: vec![] };
+        let mut w = brotli::CompressorWriter::new(inner, 64, 1, 18);
+        let mut results = vec![];
+        // make each of the first nz write() calls that reach the sink meet one Ok(0)
+        let mut off = 0;
+        let mut zeros_done = 0;
+        while off < data.len() {
+            let end = (off + 50000).min(data.len());
+            if zeros_done < nz { let c = w.get_ref().calls; let m = w.get_mut(); m.zero_from = c; m.zero_count = 1; zeros_done += 1; }
+            let r = w.write(&data[off..end]);
+            results.push(match &r { Ok(n) => format!("Ok({})", n), Err(e) => format!("Err({:?})", e.kind()) });
+            off = end;
+        }
+        let r = w.flush();
+        results.push(match &r { Ok(_) => "flush Ok".into(), Err(e) => format!("flush Err({:?})", e.kind()) });
+        let inner = w.into_inner();
+        let dec = crate::dec::decode(&inner.sink, 1 << 22);
+        let d = match dec { crate::dec::DResult::Ok(v) => format!("decodes ok, equal={}", v == data), crate::dec::DResult::Error(v) => format!("decode ERROR after {} bytes", v.len()), crate::dec::DResult::NeedsMoreInput(v) => format!("truncated after {}", v.len()), _ => "toobig".into() };
+        println!("D8 zero-writes={} results={:?} sink={} bytes; {}", nz, results, inner.sink.len(), d);
+    }
+    // ---- D7: copy loop with a writer that returns Ok(0) k times
+    {
+        let data = vec![7u8; 1000];
+        let mut r = &data[..];
+        let mut w = ZeroAfter { sink: vec![], calls: 0, zero_from: 0, zero_count: 50000, log: vec![] };
+        let params = brotli::enc::BrotliEncoderParams::default();
+        let res = std::panic::catch_unwind(std::panic::AssertUnwindSafe(|| brotli::BrotliCompress(&mut r, &mut w, &params)));
+        println!("D7 copy with 50000 x Ok(0): result={:?} inner write calls={}", res.map(|x| x.map_err(|e| e.kind())).map_err(|_| "panic"), w.calls);
+        let mut r = &data[..];
+        let mut w = ZeroAfter { sink: vec![], calls: 0, zero_from: 0, zero_count: u64::MAX / 2, log: vec![] };
+        w.zero_count = 200000; // and then the wrapper panics "livelock" at call 100001.. actually zero path returns before the bound
+        let res = std::panic::catch_unwind(std::panic::AssertUnwindSafe(|| brotli::BrotliCompress(&mut r, &mut w, &params)));
+        println!("D7 copy with 200000 x Ok(0): result={:?} inner write calls={}", res.map(|x| x.map_err(|e| e.kind())).map_err(|_| "panic"), w.calls);
+    }
+    // ---- D6: read(&mut []) in a thread, wall-clock only for this probe
+    {
+        let done = Arc::new(AtomicU64::new(0));
+        let d2 = done.clone();
+        std::thread::spawn(move || {
+            let data = vec![7u8; 1000];
+            let mut rd = brotli::CompressorReader::new(&data[..], 4096, 5, 22);
+            let mut e: [u8; 0] = [];
+            let r = rd.read(&mut e);
+            println!("D6 read(&mut []) returned {:?}", r.map_err(|e| e.kind()));
+            d2.store(1, Ordering::SeqCst);
+        });
+        std::thread::sleep(std::time::Duration::from_secs(3));
+        println!("D6 read(&mut []) returned within 3 s: {}", done.load(Ordering::SeqCst) == 1);
+    }
+}
+
 pub fn run_cmd(args: &Args) {
+    if args.rest.get(0).map(|s| s.as_str()) == Some("probe") { probe(); std::process::exit(0); }
     let corr = Corr::new(&args.out);
     let rep = Report::default();
     corr.finish();
